@@ -160,7 +160,7 @@ def load_corpus(ctx, label, features, seed):
     for q in w.U.qtypes(crate):
         w.U.fill_tables(q)
         w.qtypes.append(q)
-    scan = D.scan([os.path.join(d, "src", "lib.rs")])
+    scan = D.scan([os.path.join(d, "src", "lib.rs")], cache=False)
     w.decls = [D.QtyDecl(x) for f in scan["files"] for x in f["defs"]]
     w.decl_of = {}
     w.pairs = []
@@ -312,14 +312,18 @@ def run(ctx):
             validate_instance(ctx, config, d, q, amt, stats)
     n_ws = stats["programs"]
     # 2. witness corpus
-    for label, feats in (("f64", []), ("dec", ["fpdec"])):
-        w, crate, bases = load_corpus(ctx, label, feats, ctx.seed)
+    seeds = [ctx.seed] if ctx.tier != "thorough" else [ctx.seed + i for i in range(4)]
+    runs = [(l, f, sd) for sd in seeds for (l, f) in (("f64", []), ("dec", ["fpdec"]))]
+    for label, feats, sd in runs:
+        w, crate, bases = load_corpus(ctx, label, feats, sd)
+        if sd != ctx.seed:
+            w.config = "%s-seed%d" % (w.config, sd)
         ctx.configs.append(w.config)
         amt = "fpdec::Decimal" if feats else "f64"
         for d, q in w.pairs:
-            validate_instance(ctx, "corpus-" + label, d, q, amt, stats)
-        permutation_rule(ctx, label, w, bases, stats)
-        equal_spellings(ctx, label, w)
+            validate_instance(ctx, w.config, d, q, amt, stats)
+        permutation_rule(ctx, w.config, w, bases, stats)
+        equal_spellings(ctx, w.config, w)
         # operator set of every corpus instance = closure of its declaration (C06 rules 3-5 on the corpus crate)
         counts = {"derivations": set(), "by_value_derived": set(), "derived_impls": set(), "qtypes": set()}
         for q in w.qtypes:
@@ -328,7 +332,7 @@ def run(ctx):
         ctx.sample({"corpus": label, "definitions": len(w.pairs), "modules": sum(len(v) for v in bases.values())})
     macro_structure(ctx)
     ctx.floor("workspace macro instances validated", n_ws, 27 + 24)
-    ctx.floor("corpus definitions validated", stats["programs"] - n_ws, 2 * 30)
+    ctx.floor("corpus definitions validated", stats["programs"] - n_ws, 2 * 30 * len(seeds))
     ctx.extra["programs"] = stats["programs"]
     ctx.extra["disagreements_checked"] = len(ctx.obs)
     ctx.rule_text = "per macro instance (workspace + corpus, both back-ends): variants, names, symbols, prefixes, scales as literal values in the amount type, order, constants, code path, operator set; per corpus base: permutation invariance"
